@@ -65,6 +65,33 @@ CHECKS.update({
    note=SCHED_NOTE),
 })
 
+NET_NOTE = ("Trusted: tokio's paused clock advances only when no task is runnable (quiescence detection by settle()); Linux loopback delivers a "
+            "transmitted segment before send returns (SIOCOUTQNSD checked); the independent wire codec; the in-process reference runs of the same "
+            "requests. No hook is used by the socket layer: the real MemcacheTcpServer/Client/MemcacheBinaryConnection run on real TCP sockets.")
+
+CHECKS.update({
+ "C09": dict(engine="net+decoder", cat="model_checking", ref="§4 C09, §2.4, §2.5",
+   technique="exhaustive enumeration of every 1-cut, 2-cut and byte-at-a-time segmentation of every corpus stream, at the real decoder and over real loopback TCP on a paused single-thread runtime",
+   text="Corpus: one frame per opcode 0x00-0x24 plus 20 anomalous-but-accepted frames (unexpected extras/value, wrong extras length, oversized), each followed by noop/set/get (thorough: all ordered pairs). Oracles: every frame is taken from exactly 24+body bytes by a fresh decoder; decoder outcome and socket responses/final store identical for every segmentation; the unsegmented socket result equals the frame-wise expectation or the connection is closed.",
+   note=NET_NOTE),
+ "C12": dict(engine="net", cat="model_checking", ref="§4 C12, §2.5",
+   technique="exhaustive enumeration of pipelined request streams over all opcodes (depth 2, thorough 3, quit/quitq at every position) on real loopback TCP, validated by the sequential specification",
+   text="Every stream of 1-2 (thorough 3) requests over a 46-element alphabet (every opcode 0x00-0x24 with hit/miss and success/error operands, loud/quiet, unimplemented, undefined) plus every stream with quit/quitq in the middle, sent in one segment and byte-at-a-time; responses are matched by opaque in order: exactly one per loud known opcode, quiet only on error/hit, quit answered then EOF, quitq EOF without answer, nothing after either executed (final store compared).",
+   note=NET_NOTE),
+ "C13": dict(engine="net", cat="model_checking", ref="§4 C13, §2.5",
+   technique="exhaustive grid limit x body length x opcode x pipeline position x bytes-already-buffered x buffer-pregrown on real loopback TCP against an in-process reference",
+   text="Full grid (limits 1 KiB..4 MiB, L in {limit-1,limit,limit+1,2*limit,limit+200000}, every opcode, first/middle/last, B in {0,1,L/2-1,L/2,L/2+1,L-1,L,all+next}, receive buffer pre-grown or not): the oversized request is answered 0x03 with opcode/opaque echoed, the store equals a run without it, every other request is answered as in that run, L <= limit is never refused for size.",
+   note=NET_NOTE),
+ "C17": dict(engine="net", cat="fault_enumeration", ref="§4 C17, §2.5",
+   technique="exhaustive enumeration of connection-lifecycle sequences (8 ending kinds, limits 1..4, length <= limit+2, two ending orders) against the real accept loop/semaphore on loopback TCP with virtual time",
+   text="After every open/end event exactly min(open, limit) connections are served; after every history limit+1 fresh probes: exactly limit answered, the extra one as soon as a slot frees; accept loop alive.",
+   note=NET_NOTE),
+ "C18": dict(engine="net", cat="fault_enumeration", ref="§4 C18, §2.5",
+   technique="exhaustive enumeration of every cut offset of pipelined streams x 6 fault kinds on real loopback TCP with an observer connection, compared with in-process execution of the completed prefix",
+   text="Every byte offset 0..len x {close, half-close, reset after/before the server ran, corrupted magic, silence until the virtual idle timeout}: store content equals executing exactly the completed requests once and in order (after a reset: some prefix), responses complete, observer unaffected, fresh connection served.",
+   note=NET_NOTE),
+})
+
 PENDING = {}
 
 def main():
@@ -102,6 +129,8 @@ def main():
              "kind_free_text": "explicit-state BFS over command histories; each transition executes the real code; reference model in lock-step"},
             {"name": "sched", "path": "/verif/mc/src/sched.rs", "serves_properties": [k for k, v in CHECKS.items() if "sched" in v["engine"]],
              "kind_free_text": "stateless preemption-bounded DFS over thread schedules of the real store (shuttle engine + own scheduler + lock-instrumented dashmap)"},
+            {"name": "net", "path": "/verif/mc/src/net.rs", "serves_properties": [k for k, v in CHECKS.items() if "net" in v["engine"]],
+             "kind_free_text": "deterministic exhaustive scenario enumeration against the real TCP server on a paused current_thread tokio runtime (loopback sockets, virtual time)"},
         ],
         "checks": checks,
         "not_applicable": na,
